@@ -1,3 +1,195 @@
-import KaVerif.Model.Lexer
+import KaVerif.Lemmas.LexerLemmas
+/-
+  C11 — lexing is a faithful longest-match segmentation with exact literal values.
+  Property theorems only; helper lemmas live in Lemmas/LexerLemmas.lean.
+
+  All theorems quantify over every `List Char` (any length, any characters); the model's character
+  classes are Python's on the model alphabet (printable ASCII, ASCII whitespace, € £ ¥ ± μ).
+-/
 namespace KaVerif
+open Lexer
+
+/-- **C11 (segmentation).**  When lexing succeeds, the tokens segment the input: every token is a
+    non-empty span `[b, e)` inside the input, spans come left to right without overlap, and every
+    position that is not inside a span — before the first token, between two tokens, after the last —
+    holds a whitespace character.  So the lexemes `s[b:e]` together with the skipped whitespace are the
+    input, exactly.  (`Covers s p toks`: the same, from position `p` on.) -/
+theorem C11_spans (s : List Char) (toks : List Token) (h : tokenise s = .ok toks) : Covers s 0 toks :=
+  tokenise_covers h
+
+example : tokenise "1 +x".toList = .ok [⟨.num, 0, 1, .num (.int 1)⟩, ⟨.const "+", 2, 3, .none⟩,
+    ⟨.var, 3, 4, .name "x"⟩] := by rfl
+
+/-- **C11 (the loop terminates).**  Every token consumes at least one character, so `len(s)` iterations
+    of the `while` loop always suffice: the model's "did not terminate" outcome is never produced. -/
+theorem C11_total (s : List Char) : tokenise s ≠ .error .outOfFuel := tokenise_fuel s
+
+/-- a token read at `i` starts at `i`, is non-empty and ends inside the input -/
+theorem C11_token_span (i : Nat) (s : List Char) (t : Token) (h : readToken i s = .ok (some t)) :
+    t.b = i ∧ i < t.e ∧ t.e ≤ s.length := readToken_span h
+
+/-- **C11 (suffix only).**  `read_token(i, s)` depends only on the suffix `s[i:]`: it is the token (or
+    error) read at position 0 of the suffix, with indices moved by `i`.  In particular what precedes
+    position `i` never influences the token read there. -/
+theorem C11_suffix_only (i : Nat) (s : List Char) :
+    readToken i s = shiftRes i (readToken 0 (s.drop i)) := readToken_suffix i s
+
+/-- two inputs with the same suffix read the same token there -/
+theorem C11_suffix_only' (i j : Nat) (s s' : List Char) (h : s.drop i = s'.drop j) :
+    shiftRes j (readToken 0 (s.drop i)) = readToken j s' := by rw [h, ← readToken_suffix]
+
+/-- **C11 (longest match, constant tokens).**  When `read_token` returns the constant token `a` at `i`,
+    no longer constant token of the table matches the text at `i`.  Uses the two table facts
+    `constTokens_prefixOrdered` ("if A is a proper prefix of B then B comes before A") and
+    `alphaTokens_noPrefix`, re-checked by the kernel over the generated table on every run. -/
+theorem C11_longest_const (i : Nat) (s : List Char) (t : Token) (a : String)
+    (h : readToken i s = .ok (some t)) (ha : t.tag = .const a) :
+    ∀ b ∈ Gen.Tokens.constTokens, a.toList.length < b.toList.length → ¬ (b.toList <+: s.drop i) :=
+  scanConst_longest constTokens_prefixOrdered alphaTokens_noPrefix (readToken_const_inv h ha) ha
+
+example : readToken 0 "<==".toList = .ok (some ⟨.const "<=", 0, 2, .none⟩) := by rfl
+
+/-- **C11 (constant tokens, converse).**  A constant token `x` of the table that matches at the head of
+    `r` (with the keyword boundary test), none of whose proper extensions in the table matches, is the
+    token read — provided the dispatch reaches the scan (`r` does not start a string, instant or number). -/
+theorem C11_const_complete (r : List Char) (x : String) (hr : reachesConst r) (hx : x ∈ Gen.Tokens.constTokens)
+    (hacc : constAccepts Gen.Tokens.alphaTokens 0 r x = true)
+    (hnoext : ∀ b ∈ Gen.Tokens.constTokens, properPrefix x b = true → ¬ (b.toList <+: r)) :
+    readToken 0 r = .ok (some ⟨.const x, 0, x.toList.length, .none⟩) := readToken_const hr hx hacc hnoext
+
+/-- **C11 (integer literal, in context).**  A non-empty run of decimal digits followed by anything that is
+    not a digit, a letter or a point is one number token whose value is the integer
+    `Σ dᵢ·10^(n-1-i)` of its digits (`Nat.ofDigits`, least significant first). -/
+theorem C11_int_value_ctx (ds rest : List Char) (hne : ds ≠ []) (hd : ∀ c ∈ ds, isDigit c = true)
+    (hend : NumEnd rest) :
+    readToken 0 (ds ++ rest) =
+      .ok (some ⟨.num, 0, ds.length, .num (.int (Nat.ofDigits 10 (ds.reverse.map digitVal) : Nat))⟩) := by
+  cases ds with
+  | nil => exact absurd rfl hne
+  | cons c ds' =>
+    rw [List.cons_append, readToken_digit (hd c (by simp)), ← List.cons_append,
+      readNumToken_int hne hd hend, digitsVal_eq_ofDigits]
+
+/-- **C11 (integer literal).**  The whole input `ds` lexes to exactly that one token. -/
+theorem C11_int_value (ds : List Char) (hne : ds ≠ []) (hd : ∀ c ∈ ds, isDigit c = true) :
+    tokenise ds = .ok [⟨.num, 0, ds.length, .num (.int (Nat.ofDigits 10 (ds.reverse.map digitVal) : Nat))⟩] := by
+  have h := C11_int_value_ctx ds [] hne hd numEnd_nil
+  have := tokenise_tok (l := ds) (rest := []) h rfl
+  rw [List.append_nil] at this
+  rw [this]; rfl
+
+example : tokenise "0042".toList = .ok [⟨.num, 0, 4, .num (.int 42)⟩] := by rfl
+
+/-- **C11 (based integer literal).**  `0b`/`0o`/`0x`/`0d` followed by a non-empty run of hexadecimal digit
+    characters (and then no further one): when every digit is below the base the token's value is the
+    integer of the digits in base 2/8/16/10; otherwise the literal is a `BadNumberError` at its first
+    character (`0b12`, `0d1f`). -/
+theorem C11_based_value (m : Char) (hs rest : List Char) (hm : m = 'x' ∨ m = 'o' ∨ m = 'b' ∨ m = 'd')
+    (hne : hs ≠ []) (hh : ∀ c ∈ hs, isHex c = true) (hstop : NoStart isHex rest) :
+    readToken 0 ('0' :: m :: (hs ++ rest)) =
+      if hs.all (fun c => digitVal c < baseOf m) then
+        .ok (some ⟨.num, 0, 2 + hs.length,
+          .num (.int (Nat.ofDigits (baseOf m) (hs.reverse.map digitVal) : Nat))⟩)
+      else .error (.badNumber 0) := by
+  rw [readToken_digit (by decide), readNumToken_based hm hne hh hstop, digitsVal_eq_ofDigits]
+
+example : baseOf 'b' = 2 ∧ baseOf 'o' = 8 ∧ baseOf 'x' = 16 ∧ baseOf 'd' = 10 := by decide
+example : tokenise "0xfF".toList = .ok [⟨.num, 0, 4, .num (.int 255)⟩] := by rfl
+example : tokenise "0b12".toList = .error (.badNumber 0) := by rfl
+
+/-- **C11 (scientific literal, integer mantissa).**  `m e [+-] k` (digits `ds`, optional sign, digits `es`,
+    then no further digit) is one number token with the exact value `M·10^E`: the int `M * 10**E` when
+    `E ≥ 0`, the Fraction `M / 10**(-E)` when `E < 0` (kind before `simplify_number`). -/
+theorem C11_sci_value (ds es rest : List Char) (sg : Option Char) (hne : ds ≠ [])
+    (hd : ∀ c ∈ ds, isDigit c = true) (hsg : sg = none ∨ sg = some '-' ∨ sg = some '+')
+    (hene : es ≠ []) (hed : ∀ c ∈ es, isDigit c = true) (hstop : NoStart isDigit rest) :
+    let M : Nat := Nat.ofDigits 10 (ds.reverse.map digitVal)
+    let K : Nat := Nat.ofDigits 10 (es.reverse.map digitVal)
+    let E : Int := if sg = some '-' then -(K : Int) else (K : Int)
+    readToken 0 (ds ++ 'e' :: (sg.toList ++ (es ++ rest))) =
+      .ok (some ⟨.num, 0, ds.length + (1 + sg.toList.length + es.length),
+        .num (if E < 0 then .frac ((M : Int) / ((10 ^ (-E).toNat : Nat) : Rat))
+              else .int ((M : Int) * ((10 ^ E.toNat : Nat) : Int)))⟩) := by
+  intro M K E
+  have hE : expValue sg es = E := by
+    simp only [expValue, E, K, digitsVal_eq_ofDigits]
+    rcases hsg with rfl | rfl | rfl <;> simp
+  cases ds with
+  | nil => exact absurd rfl hne
+  | cons c ds' =>
+    rw [List.cons_append, readToken_digit (hd c (by simp)), ← List.cons_append,
+      readNumToken_sci hne hd hsg hene hed hstop, hE, digitsVal_eq_ofDigits]
+
+example := C11_sci_value "15".toList "3".toList [] (some '-') (by decide) (by decide) (by simp) (by decide)
+  (by decide) (noStart_nil _)
+example : tokenise "1e+06".toList = .ok [⟨.num, 0, 5, .num (.int 1000000)⟩] := by rfl
+
+/-- **C11 (`a..b`).**  Two digit strings around `..` lex as number, range token, number — never as the two
+    floats `a.` and `.b`. -/
+theorem C11_range_split (a b : List Char) (ha : a ≠ []) (hb : b ≠ [])
+    (had : ∀ c ∈ a, isDigit c = true) (hbd : ∀ c ∈ b, isDigit c = true) :
+    tokenise (a ++ '.' :: '.' :: b) =
+      .ok [⟨.num, 0, a.length, .num (.int (Nat.ofDigits 10 (a.reverse.map digitVal) : Nat))⟩,
+           ⟨.const "..", a.length, a.length + 2, .none⟩,
+           ⟨.num, a.length + 2, a.length + 2 + b.length,
+             .num (.int (Nat.ofDigits 10 (b.reverse.map digitVal) : Nat))⟩] := by
+  have h1 : readToken 0 (a ++ '.' :: '.' :: b) =
+      .ok (some ⟨.num, 0, a.length, .num (.int ((digitsVal 10 a : Nat) : Int))⟩) := by
+    cases a with
+    | nil => exact absurd rfl ha
+    | cons c a' => rw [List.cons_append, readToken_digit (had c (by simp)), ← List.cons_append,
+        readNumToken_dotdot ha had]
+  have h2 := readToken_dotdot b
+  have h3 := C11_int_value b hb hbd
+  have t2 := tokenise_tok (l := ['.', '.']) (rest := b) h2 rfl
+  rw [h3] at t2
+  have t1 := tokenise_tok (l := a) (rest := '.' :: '.' :: b) h1 rfl
+  rw [show ('.' :: '.' :: b) = ['.', '.'] ++ b from rfl, t2] at t1
+  rw [show ('.' :: '.' :: b) = ['.', '.'] ++ b from rfl, t1, digitsVal_eq_ofDigits]
+  simp [shiftToks, shiftTok]
+  omega
+
+example := C11_range_split "12".toList "5".toList (by decide) (by decide) (by decide) (by decide)
+
+/-- **C11 (keywords: the table).**  The alphabetic keywords are exactly `to` and `in`. -/
+theorem C11_keywords_table : Gen.Tokens.alphaTokens = ["to", "in"] := alphaTokens_eq
+
+/-- **C11 (keywords).**  `to` / `in` followed by the end of the input or by a character that is not a letter
+    is the keyword token; followed by a letter it is not a keyword but the beginning of an identifier, which
+    extends over all following identifier characters. -/
+theorem C11_keywords (w : String) (hw : w ∈ Gen.Tokens.alphaTokens) (rest : List Char) :
+    (rest.head?.any isAlpha = false →
+      readToken 0 (w.toList ++ rest) = .ok (some ⟨.const w, 0, w.toList.length, .none⟩))
+    ∧ (∀ c tl, rest = c :: tl → isAlpha c = true →
+      readToken 0 (w.toList ++ rest) =
+        .ok (some ⟨.var, 0, w.toList.length + 1 + (tl.takeWhile isVarChar).length,
+          .name (String.ofList (w.toList ++ c :: tl.takeWhile isVarChar))⟩)) :=
+  ⟨readToken_keyword hw, fun c tl hr hc => by rw [hr]; exact readToken_keyword_ident hw hc⟩
+
+example : tokenise "3 to m".toList = .ok [⟨.num, 0, 1, .num (.int 3)⟩, ⟨.const "to", 2, 4, .none⟩,
+    ⟨.var, 5, 6, .name "m"⟩] := by rfl
+example : tokenise "int".toList = .ok [⟨.var, 0, 3, .name "int"⟩] := by rfl
+
+/-- **C11 (string literals close or are reported at the opening quote).**  With a `"` at position `i`, let
+    `body` be the text after it and call a position of `body` *closing* when it holds a `"` that is not
+    immediately preceded by a backslash (`Unescaped`).  If `k` is the first closing position the token is the
+    string `[i, i+k+2)` with value `body[:k]`; if there is no closing position the result is
+    `UnclosedStringError(i)`. -/
+theorem C11_closing_string (i : Nat) (s : List Char) (h : s[i]? = some '"') :
+    (∀ k, Unescaped (s.drop (i + 1)) k → (∀ j, j < k → ¬ Unescaped (s.drop (i + 1)) j) →
+        readToken i s = .ok (some ⟨.str, i, i + 1 + k + 1, .text (String.ofList ((s.drop (i + 1)).take k))⟩))
+    ∧ ((∀ k, ¬ Unescaped (s.drop (i + 1)) k) → readToken i s = .error (.unclosedString i)) :=
+  readToken_string i s h
+
+/-- **C11 (instant literals close or are reported at the opening `#`).** -/
+theorem C11_closing_instant (i : Nat) (s : List Char) (h : s[i]? = some '#') :
+    (∀ k : Nat, (s.drop (i + 1))[k]? = some '#' → (∀ j : Nat, j < k → (s.drop (i + 1))[j]? ≠ some '#') →
+        readToken i s = .ok (some ⟨.inst, i, i + 1 + k + 1, .text (String.ofList ((s.drop (i + 1)).take k))⟩))
+    ∧ ((∀ k : Nat, (s.drop (i + 1))[k]? ≠ some '#') → readToken i s = .error (.unclosedInstant i)) :=
+  readToken_instant i s h
+
+example : tokenise "1 \"a\\\"b".toList = .error (.unclosedString 2) := by rfl
+example : Unescaped "a\\\"b\"".toList 4 ∧ ¬ Unescaped "a\\\"b\"".toList 2 := by simp [Unescaped]
+example : tokenise "#a# #".toList = .error (.unclosedInstant 4) := by rfl
+
 end KaVerif
